@@ -123,9 +123,12 @@ theorem chunk_drop (p : Prov) (pos : Nat) :
 
 /-! ### `Read::read` -/
 
+theorem wordPos_ok (pos : Nat) (h : pos < 131072) : wordPos pos = ret (pos / 2) := by
+  unfold wordPos; rw [if_pos (by omega)]
+
 /-- The chunk loop returns exactly the `rem` bytes that follow `pos`, and makes at most `rem` provider calls. -/
 theorem readLoop_ok (m : Mode) (p : Prov) (hcs : 2 ≤ p.cs) :
-    ∀ (fuel pos rem : Nat) (acc : List Nat), rem < fuel → pos + rem < 65536 →
+    ∀ (fuel pos rem : Nat) (acc : List Nat), rem < fuel → pos + rem ≤ 131072 →
       (readLoop m p fuel pos rem acc).1 = .ok (acc ++ slice p.rd pos rem, pos + rem) ∧
       (readLoop m p fuel pos rem acc).2 ≤ rem := by
   intro fuel
@@ -136,19 +139,18 @@ theorem readLoop_ok (m : Mode) (p : Prov) (hcs : 2 ≤ p.cs) :
     unfold readLoop
     by_cases h0 : rem = 0
     · subst h0; simp
-    · rw [if_neg h0]
-      simp only [readChunk, bind_call]
+    · rw [if_neg h0, wordPos_ok pos (by omega)]
+      simp only [readChunk, bind_ret, bind_call]
       have hlen : pos % 2 ≤ (chunkAt p (pos / 2)).length := by simp; omega
       rw [if_neg (by omega)]
       rw [chunk_drop]
       simp only [slice_length]
       by_cases hlt : rem < p.cs - pos % 2
-      · rw [if_pos hlt, add16_ok _ _ _ _ hb]
-        simp only [bind_ret, ret_fst, ret_snd, slice_take]
+      · rw [if_pos hlt]
+        simp only [ret_fst, ret_snd, slice_take]
         rw [Nat.min_eq_left (by omega)]
         exact ⟨rfl, by omega⟩
-      · rw [if_neg hlt, add16_ok _ _ _ _ (by omega)]
-        simp only [bind_ret]
+      · rw [if_neg hlt]
         have := ih (pos + (p.cs - pos % 2)) (rem - (p.cs - pos % 2)) (acc ++ slice p.rd pos (p.cs - pos % 2))
           (by omega) (by omega)
         constructor
@@ -158,9 +160,9 @@ theorem readLoop_ok (m : Mode) (p : Prov) (hcs : 2 ≤ p.cs) :
         · have h2 := this.2
           omega
 
-/-- **`Read::read`**: for any window below 64 KiB, the call returns exactly the stored bytes
+/-- **`Read::read`**: for any window inside the address space, the call returns exactly the stored bytes
     `[pos, pos + k)` with `k = min n (end - pos)`, advances by `k`, and nothing beyond `end` is returned. -/
-theorem read_ok (m : Mode) (p : Prov) (hcs : 2 ≤ p.cs) (r : Range) (n : Nat) (he : r.endp < 65536) :
+theorem read_ok (m : Mode) (p : Prov) (hcs : 2 ≤ p.cs) (r : Range) (n : Nat) (he : r.endp ≤ 131072) :
     (Range.read m p r n).1
       = .ok (slice p.rd r.pos (min n (r.endp - r.pos)), { r with pos := r.pos + min n (r.endp - r.pos) }) ∧
     (Range.read m p r n).2 ≤ min n (r.endp - r.pos) + 1 := by
@@ -175,7 +177,7 @@ theorem read_ok (m : Mode) (p : Prov) (hcs : 2 ≤ p.cs) (r : Range) (n : Nat) (
 
 /-! ### `read_exact` -/
 
-theorem readExact_ok (m : Mode) (p : Prov) (hcs : 2 ≤ p.cs) (r : Range) (n : Nat) (he : r.endp < 65536)
+theorem readExact_ok (m : Mode) (p : Prov) (hcs : 2 ≤ p.cs) (r : Range) (n : Nat) (he : r.endp ≤ 131072)
     (hfit : r.pos + n ≤ r.endp) :
     (Range.readExact m p r n).1 = .ok (slice p.rd r.pos n, { r with pos := r.pos + n }) ∧
     (Range.readExact m p r n).2 ≤ n + 1 := by
@@ -194,7 +196,7 @@ theorem readExact_ok (m : Mode) (p : Prov) (hcs : 2 ≤ p.cs) (r : Range) (n : N
     simp
     omega
 
-theorem readExact_eof (m : Mode) (p : Prov) (hcs : 2 ≤ p.cs) (r : Range) (n : Nat) (he : r.endp < 65536)
+theorem readExact_eof (m : Mode) (p : Prov) (hcs : 2 ≤ p.cs) (r : Range) (n : Nat) (he : r.endp ≤ 131072)
     (hn : 0 < n) (hfit : ¬ r.pos + n ≤ r.endp) :
     (Range.readExact m p r n).1 = .err .eof ∧ (Range.readExact m p r n).2 ≤ n + 1 := by
   unfold Range.readExact
